@@ -472,6 +472,8 @@ package webrtc
 //@ atcall (*API).newDataChannel assert specValidChannelType(dc.Config.ChannelType) ==> ordered == specTypeOrdered(dc.Config.ChannelType)
 //@ atcall (*API).newDataChannel assert (maxRetransmits != nil) == specTypeHasRetransmits(dc.Config.ChannelType) && (maxPacketLifeTime != nil) == specTypeHasLifeTime(dc.Config.ChannelType)
 //@ atcall (*API).newDataChannel assert (maxRetransmits != nil ==> *maxRetransmits == uint16(dc.Config.ReliabilityParameter)) && (maxPacketLifeTime != nil ==> *maxPacketLifeTime == uint16(dc.Config.ReliabilityParameter))
+// ownership: the parameter cell handed to a channel is not shared with channels accepted earlier
+//@ atcall (*API).newDataChannel assert (maxRetransmits != nil ==> freshiter(maxRetransmits)) && (maxPacketLifeTime != nil ==> freshiter(maxPacketLifeTime))
 
 // decode(encode(x)) == x for every reliability setting the constructor admits.
 //@ lemma dcep_roundtrip
